@@ -366,9 +366,27 @@ def write_evidence(ctx, n_viol):
         f.write('\n')
 
 
+def _san(o):
+    """JSON-safe copy: dict keys to str, tuples/sets to lists, NumPy scalars/arrays to Python."""
+    if isinstance(o, dict):
+        return {(k if isinstance(k, (str, int, float, bool)) or k is None else str(k)): _san(v) for k, v in o.items()}
+    if isinstance(o, (list, tuple, set, frozenset)):
+        return [_san(v) for v in o]
+    if hasattr(o, 'tolist') and not isinstance(o, (str, bytes)):
+        try:
+            return _san(o.tolist())
+        except Exception:
+            return str(o)
+    return o
+
+
 def finish(ctx):
     """Steps 4-6 of DESIGN §2.1. Returns the exit code."""
     known = load_known()
+    ctx.violations = _san(ctx.violations)
+    ctx.disagreements = _san(ctx.disagreements)
+    ctx.broken = _san(ctx.broken)
+    ctx.samples = _san(ctx.samples)
     os.makedirs(os.path.join(VERIF, 'replays'), exist_ok=True)
     new = []
     seen_known = {}
